@@ -284,6 +284,35 @@ def oracle_and_corr(ctx):
     return orc, [corr]
 
 
+def known_evtx_size0_witness(ctx):
+    """F38: ONE 4-byte edit of the shipped .evtx sample (the size field of a record set to 0) makes the evtx crate's chunk iterator yield the
+    same Err for ever (it advances by the record's size field after a failed record) while `records()` collects them into an unbounded Vec:
+    EvtxReader::analyze never returns, memory grows, nothing is printed - also for a healthy source named beside it. Found by the EvtxTie slice."""
+    import struct
+    src = os.path.join(core.REPO, 'logs/programs/evtx/Microsoft-Windows-Kernel-PnP%4Configuration.evtx')
+    fails, ev = [], 0
+    if os.path.exists(src):
+        d = bytearray(open(src, 'rb').read())
+        p = 4096 + 65536 + 512
+        for _ in range(2):
+            p += struct.unpack_from('<I', d, p + 4)[0]
+        if d[p:p + 4] == b'\x2a\x2a\x00\x00':
+            struct.pack_into('<I', d, p + 4, 0)
+            work = os.path.join(ctx.work, 'size0')
+            os.makedirs(work, exist_ok=True)
+            bad = os.path.join(work, 'size0.evtx')
+            open(bad, 'wb').write(bytes(d))
+            rc, out, err, wall = e2e.s4(e2e.BASE_ARGS + [bad], timeout=8)
+            ev += 1
+            if rc == -9:
+                fails.append({'signature': 'malformed:evtx-record-size-zero-never-returns', 'detail': f'no exit within 8 s ({len(out)} bytes on stdout)',
+                              'case': {'mutant': 'shipped .evtx sample, size field of the record at file offset %d set to 0' % p}})
+            elif rc not in (0, 1) or b'panicked at' in err:
+                fails.append({'signature': 'malformed:crash-or-bad-exit-status', 'detail': f'rc={rc} {err[-200:]!r}', 'case': {'mutant': 'evtx record size 0'}})
+            os.unlink(bad)
+    return {'evaluations': ev, 'distinct_nontrivial': ev, 'failures': fails, 'samples': [], 'rule': 'witness of known finding F38 (evtx record with size field 0) replayed on the binary with an 8 s limit'}
+
+
 def check(ctx):
     ok_gen = core.step_gen(ctx, ['Consts', 'Blocks', 'Coord', 'Worker'])
     prove = core.step_prove(ctx, MODS) if ok_gen else {'module': ' '.join(MODS), 'obligations': 0, 'discharged': 0}
@@ -292,6 +321,7 @@ def check(ctx):
     orc, corr = (None, [])
     if ok_impl:
         orc, corr = oracle_and_corr(ctx)
+        orc = core.merge_oracles([orc, known_evtx_size0_witness(ctx)])
         # every worker's observed receive sequence (all source kinds, damaged inputs, error paths) must be a trace of the regenerated worker skeleton
         corr = list(corr) + [worker_traces.correspondence(ctx, ctx.q(60, 500))]
     return core.decide(ctx, prove, corr, orc, LEVEL_NOTE, ASSUME)
